@@ -159,6 +159,11 @@ class ModelWorld(engine.World):
         p_rebuild = 0.7
         if not any(f.startswith("weights") for f in fmts):
           fmts.append(p.choice(["weights_h5", "weights_tf", "weights_v3"]))
+    if getattr(builder, "deferred_strictness", lambda sp: False)(spec):
+      # Strictness is only promised after finalize_constraints(): make sure
+      # histories contain enough of them to have anything to check.
+      kinds = [(k, w) for k, w in kinds if k != "finalize"] + [("finalize",
+                                                                4.0)]
     fam_mode = p.weighted([("new", 3), ("legacy", 2), ("both", 4)])
     fams = {"new": ["new"], "legacy": ["legacy"], "both": ["new", "legacy"]}[
         fam_mode]
